@@ -12,8 +12,12 @@ Record xcase := {
   x_term_lookups : list (list sstr * option (list nat));    (* factor list (any order) -> term_indices[...] or None if KeyError *)
   x_slices : list (list sstr * option (nat * nat));    (* term_slices *)
   x_cols : list (sstr * option nat);                   (* column_indices.get(name) *)
-  x_vars : list (sstr * list nat)                      (* variable_indices *)
+  x_vars : list (sstr * list nat);                     (* variable_indices *)
+  x_chosen : list (list sstr);                         (* terms chosen for subset / get_term_indices, in the order chosen (may name a term the spec lacks) *)
+  x_subset : option (list sstr);                       (* spec.subset(chosen).column_names, None if it raises ValueError *)
+  x_getix : option (list nat)                          (* spec.get_term_indices(chosen) *)
 }.
+Definition okl_eqb (a b : option (list sstr)) := match a, b with Some x, Some y => keyl_eqb x y | None, None => true | _, _ => false end.
 Definition xcheck (c : xcase) : bool :=
   keyl_eqb (column_names (x_rows c)) (x_names c)
   && forallb (fun p => onl_eqb (lookup_term (x_rows c) (fst p)) (snd p)) (x_term_lookups c)
@@ -21,6 +25,8 @@ Definition xcheck (c : xcase) : bool :=
                        | Some ix, Some (a, b) => let '(a', b') := slice_of ix in Nat.eqb a a' && Nat.eqb b b'
                        | None, None => true | _, _ => false end) (x_slices c)
   && forallb (fun p => on_eqb (column_index (x_rows c) (fst p)) (snd p)) (x_cols c)
-  && forallb (fun p => nl_eqb (variable_indices (x_rows c) (fst p)) (snd p)) (x_vars c).
+  && forallb (fun p => nl_eqb (variable_indices (x_rows c) (fst p)) (snd p)) (x_vars c)
+  && okl_eqb (option_map column_names (subset (x_rows c) (x_chosen c))) (x_subset c)
+  && onl_eqb (get_term_indices (x_rows c) (x_chosen c)) (x_getix c).
 Fixpoint chk_meta (cs : list xcase) (i : nat) : nat * list nat :=
   match cs with [] => (O, []) | c :: r => let '(m, fl) := chk_meta r (S i) in if xcheck c then (m, fl) else (S m, i :: fl) end.
